@@ -118,4 +118,133 @@ theorem binop_noFault (name : String) (a b : JV)
   unfold binop
   split <;> first | exact hi _ _ | exact hf _ _ | exact hb _ _ | rfl
 
+/-! ### asciiwriter: the invariant of the line buffer -/
+
+/-- good states: the pending bytes fit the buffer, which is never empty -/
+def AwInv (h : LineWriter) : Prop := h.bufOffset ≤ h.bufLen ∧ 1 ≤ h.bufLen
+
+/-- what a Write may deliver: a good state (same width) — never a panic, never a resource fault -/
+def AwGood (width : Nat) : Outcome (LineWriter × Nat) → Prop
+  | .ok (h', _) => AwInv h' ∧ h'.width = width
+  | .err _ => True
+  | .panic _ => False
+  | .resource _ => False
+
+theorem asciiLoop_good (p : List Nat) : ∀ (h : LineWriter) (written : Nat), AwInv h →
+    AwGood h.width (asciiLoop (fun bo c => bo + c + 1) (fun need => need * 2) h written p) := by
+  induction p with
+  | nil => intro h written hinv; exact ⟨hinv, rfl⟩
+  | cons c rest ih =>
+    intro h written hinv
+    obtain ⟨h1, h2⟩ := hinv
+    unfold asciiLoop
+    simp only
+    by_cases hg : h.bufOffset + c + 1 > h.bufLen
+    · -- grow
+      have e1 : ¬ h.bufOffset > h.bufLen := by omega
+      have e2 : ¬ h.bufOffset > (h.bufOffset + c + 1) * 2 := by omega
+      have e3 : ¬ h.bufOffset + c ≥ (h.bufOffset + c + 1) * 2 := by omega
+      have e4 : ¬ h.bufOffset + c + 1 > (h.bufOffset + c + 1) * 2 := by omega
+      have e5 : ¬ h.bufOffset + c > (h.bufOffset + c + 1) * 2 := by omega
+      simp only [hg, if_true, goSliceTo, goIndex, e1, e2, e3, e4, e5, if_false, Outcome.bind]
+      split
+      · exact ih _ _ ⟨by simp, by simp; omega⟩
+      · split
+        · exact ih _ _ ⟨by simp, by simp; omega⟩
+        · exact ih _ _ ⟨by simp; omega, by simp; omega⟩
+    · have e2 : ¬ h.bufOffset > h.bufLen := by omega
+      have e3 : ¬ h.bufOffset + c ≥ h.bufLen := by omega
+      have e4 : ¬ h.bufOffset + c + 1 > h.bufLen := by omega
+      have e5 : ¬ h.bufOffset + c > h.bufLen := by omega
+      simp only [hg, if_false, goSliceTo, goIndex, e2, e3, e5, Outcome.bind]
+      split
+      · exact ih _ _ ⟨by simp, by simp; omega⟩
+      · split
+        · exact ih _ _ ⟨by simp, by simp; omega⟩
+        · exact ih _ _ ⟨by simp; omega, by simp; omega⟩
+
+theorem asciiWrite_good (h : LineWriter) (p : List Nat) (hw : 1 ≤ h.width) (hinv : AwInv h) :
+    AwGood h.width (asciiWrite h p) := by
+  obtain ⟨h1, h2⟩ := hinv
+  unfold asciiWrite asciiWriteWith
+  have hw0 : (h.width == 0) = false := by simp; omega
+  simp only [hw0]
+  by_cases hc : (decide (max h.offset h.start > h.start) && max h.offset h.start % h.width == 0) = true
+  · have e : ¬ 0 ≥ h.bufLen := by omega
+    simp only [hc, goIndex, e, Outcome.bind]
+    exact asciiLoop_good p _ _ ⟨by show 1 ≤ h.bufLen; omega, by show 1 ≤ h.bufLen; omega⟩
+  · simp only [hc, Outcome.bind]
+    exact asciiLoop_good p _ _ ⟨by show h.bufOffset ≤ h.bufLen; omega, by show 1 ≤ h.bufLen; omega⟩
+
+theorem writeAll_ascii_good (chunks : List (List Nat)) : ∀ (h : LineWriter) (total : Nat), 1 ≤ h.width → AwInv h →
+    AwGood h.width (writeAll asciiWrite h total chunks) := by
+  induction chunks with
+  | nil => intro h total _ hinv; exact ⟨hinv, rfl⟩
+  | cons p ps ih =>
+    intro h total hw hinv
+    unfold writeAll
+    have hg := asciiWrite_good h p hw hinv
+    cases hr : asciiWrite h p with
+    | ok r =>
+      rw [hr] at hg
+      obtain ⟨hi, hwid⟩ := hg
+      simp only [Outcome.bind]
+      have := ih r.1 (total + r.2) (by rw [hwid]; exact hw) hi
+      rw [hwid] at this
+      exact this
+    | err k => trivial
+    | panic w => rw [hr] at hg; exact hg.elim
+    | resource w => rw [hr] at hg; exact hg.elim
+
+/-! ### hexpairwriter: fits as long as a formatted byte is at most 199 bytes -/
+
+theorem succ_mod_of_ne (a w : Nat) (hw : 1 ≤ w) (h : a % w ≠ w - 1) : (a + 1) % w = a % w + 1 := by
+  have hlt : a % w < w := Nat.mod_lt _ (by omega)
+  rw [Nat.add_mod]
+  by_cases h1 : w = 1
+  · subst h1; simp at h; omega
+  · have : 1 % w = 1 := Nat.mod_eq_of_lt (by omega)
+    rw [this]
+    exact Nat.mod_eq_of_lt (by omega)
+
+def HpInv (h : LineWriter) : Prop :=
+  1 ≤ h.width ∧ h.bufLen = h.width * 200 + 1 ∧ h.bufOffset ≤ 1 + 200 * (h.offset % h.width)
+
+theorem hexpairLoop_good (p : List Nat) (hp : ∀ c ∈ p, c ≤ 199) : ∀ (h : LineWriter) (written : Nat), HpInv h →
+    AwGood h.width (hexpairLoop h written p) := by
+  induction p with
+  | nil =>
+    intro h written hinv
+    obtain ⟨h1, h2, h3⟩ := hinv
+    have hlt : h.offset % h.width < h.width := Nat.mod_lt _ (by omega)
+    exact ⟨⟨by omega, by omega⟩, rfl⟩
+  | cons c rest ih =>
+    intro h written hinv
+    obtain ⟨h1, h2, h3⟩ := hinv
+    have hc : c ≤ 199 := hp c (by simp)
+    have hrest : ∀ c ∈ rest, c ≤ 199 := fun x hx => hp x (by simp [hx])
+    have hlt : h.offset % h.width < h.width := Nat.mod_lt _ (by omega)
+    unfold hexpairLoop
+    have e1 : ¬ h.bufOffset > h.bufLen := by omega
+    have e2 : ¬ h.bufOffset + c ≥ h.bufLen := by omega
+    have e3 : ¬ h.bufOffset + c + 1 > h.bufLen := by omega
+    have e4 : ¬ h.bufOffset + c + 1 - 1 > h.bufLen := by omega
+    simp only [goSliceTo, goIndex, e1, e2, e3, e4, if_false, Outcome.bind]
+    split
+    · exact ih hrest _ _ ⟨h1, h2, by simp⟩
+    · split
+      · exact ih hrest _ _ ⟨h1, h2, by simp⟩
+      · rename_i hA hB
+        have hne : h.offset % h.width ≠ h.width - 1 := by
+          intro heq
+          apply hA
+          simp [heq]
+          cases rest with
+          | nil => simp at hB
+          | cons _ _ => simp
+        have hs := succ_mod_of_ne h.offset h.width h1 hne
+        refine ih hrest _ _ ⟨h1, h2, ?_⟩
+        show h.bufOffset + c + 1 ≤ 1 + 200 * ((h.offset + 1) % h.width)
+        rw [hs]; omega
+
 end Proofs.C13
